@@ -240,16 +240,37 @@ def classify_send(kind, text, want_ok):
 
 
 def extract_ack_loop(src):
+    """the writer thread: `while let Some(mut buffer) = receive_buffer.blocking_recv() { let result = process_batch_write;
+    [H4 point] match result { Ok(_) => {..} Err(e) => {..} } let _s = send_ready.blocking_send(true); }` and NOTHING else:
+    every batch is written once, answered once (by one of the two branches), never queued again"""
     m = re.search(r"let result = Self::process_batch_write\(&mut buffer, &conn\);", src)
     if not m:
         raise Refuse("call of process_batch_write in the writer thread not found")
+    if len(re.findall(r"process_batch_write\(", src)) != 2:   # the definition and this call
+        raise Refuse("process_batch_write is called from more than one place")
+    # the enclosing loop
+    wl = list(re.finditer(r"thread::spawn\(move \|\| \{\s*while let Some\(mut buffer\) = receive_buffer\.blocking_recv\(\)\s*\{", src[:m.start()]))
+    if not wl or src[wl[-1].end():m.start()].strip() != "":
+        raise Refuse("the writer thread does not start with `while let Some(mut buffer) = receive_buffer.blocking_recv() { let result = ..`")
+    lo = wl[-1].end() - 1
+    loop_body = src[lo + 1:block_at(src, lo) - 1]
+    behind_loop = src[block_at(src, lo):]
+    if not re.match(r"\s*\}\s*\);", behind_loop):
+        raise Refuse("statements behind the writer thread's loop")
     rest = src[m.end():]
     hk = hooks_in(rest[:200])
-    mm = re.match(r"\s*match result\s*\{", without_hooks(rest[:200]) + rest[200:])
+    rest2 = without_hooks(rest[:200]) + rest[200:]
+    mm = re.match(r"\s*match result\s*\{", rest2)
     if not mm:
         raise Refuse("`match result` does not follow the call of process_batch_write")
-    rest2 = without_hooks(rest[:200]) + rest[200:]
-    body = rest2[mm.end():block_at(rest2, mm.end() - 1) - 1]
+    match_end = block_at(rest2, mm.end() - 1)
+    tail = rest2[match_end:]
+    tm = re.match(r"\s*let _s = send_ready\.blocking_send\(true\);\s*\}\s*\}\s*\);", tail)
+    if not tm:
+        raise Refuse("the acknowledgement `match result {..}` is not followed by `send_ready.blocking_send(true)` and the end of the loop")
+    if len(re.findall(r"\bbuffer\b", without_hooks(loop_body))) != 3:   # the call and the two `for msg in buffer`
+        raise Refuse("the batch buffer is used outside the call of process_batch_write and the two acknowledgement loops")
+    body = rest2[mm.end():match_end - 1]
     okm = re.match(r"\s*Ok\(_\)\s*=>\s*\{", body)
     if not okm:
         raise Refuse("Ok branch of the acknowledgement not found")
@@ -260,6 +281,8 @@ def extract_ack_loop(src):
         raise Refuse("Err branch of the acknowledgement not found")
     erre = block_at(body[oke:], errm.end() - 1)
     errb = body[oke:][errm.end():erre - 1]
+    if body[oke:][erre:].strip(" \n,") != "":
+        raise Refuse("a third branch in the acknowledgement `match result`")
     res = {}
     for want_ok, b in ((True, okb), (False, errb)):
         fm = re.match(r"\s*for msg in buffer\s*\{\s*match msg\s*\{", b)
